@@ -24,10 +24,14 @@ type c10Case struct {
 
 var c10Universe = []string{"TestA - 1", "TestA - 2", "TestA - 10", "TestA/x - 1", "TestB - 1", "Test_1 - 1", "TestA/c_01 - 1", "TestA/c_1 - 1", "FuzzA/seed#0 - 1", "TestA/9 - 10", "TestA/10 - 9"}
 
-var c10Bodies = []string{"a", "", "x\n\ny", "---", "[TestA - 1]", "\n", "/-/-/-/", " ", "b\n", "[TestB - 1]\nz", "\xff", "$1%d", "k:\n[TestQ - 7]\nv", "before\n--- \nafter", "head\n\n[TestA - 1]\ntail", "100% done %s\n%!d(MISSING)", c10Big}
+var c10Bodies = []string{"a", "", "x\n\ny", "---", "[TestA - 1]", "\n", "/-/-/-/", " ", "b\n", "[TestB - 1]\nz", "\xff", "$1%d", "k:\n[TestQ - 7]\nv", "before\n--- \nafter", "head\n\n[TestA - 1]\ntail", "100% done %s\n%!d(MISSING)", c10Big, c10Long, c10Huge}
 
 // c10Big: a body larger than any line buffer a reader might use (many lines, 6 KB)
 var c10Big = strings.Repeat("a line of the big body 0123456789\n", 180) + "end"
+
+// c10Long / c10Huge: ONE line longer than the 4 KiB default reader buffer / the 64 KiB default scanner token
+var c10Long = "<" + strings.Repeat("L", 5000) + ">"
+var c10Huge = "first\n<" + strings.Repeat("H", 70000) + ">\nlast"
 
 func c10Gen(c *vfCtx, emit func(c10Case)) {
 	env := os.Getenv("UPDATE_SNAPS")
